@@ -897,10 +897,11 @@ func (C07) Meta() core.Meta {
 			"small streams, otherwise boundaries + header + seeded offsets), optionally delivered together with the last data, under a seeded chunk schedule. Mode B applies " +
 			"1-3 structure-aware edits (delete/duplicate/swap lines, shrink/grow indent, drop a value, lengthen a field name, flip a byte, inflate a reference number, replace a " +
 			"line by a known-tricky one) optionally followed by a cut. Mode C changes only the declared LOCUS length or the ORIGIN block (delete/duplicate/shorten a line). Mode D " +
-			"feeds truncations and byte mutations of valid location/locator/modifier/selector/date/molecule/topology/feature-table strings to the interpreters. Oracles: T1 no " +
+			"feeds truncations and byte mutations of valid location/locator/modifier/selector/date/molecule/topology/feature-table strings to the interpreters, each twice. Mode E scales one " +
+			"part of a well-formed stream by 4 and compares allocated bytes (T7). Oracles: T1 no " +
 			"panic; T2 watchdog + no Read after an error; T3 (unedited GenBank streams) every record returned equals the intact stream's record and Err()==nil implies all complete " +
-			"records were returned and the cut sits on a record boundary; T4 (mode C) accepted implies declared == actual == returned length; T5 outcome independent of the chunk " +
-			"schedule. A case is one faulted scan or string call; it is non-trivial when its state key is new.",
+			"records were returned and the cut sits on a record boundary, and a delivered reader error never ends in Err()==nil; T4 (mode C) accepted implies declared == actual == " +
+			"returned length; T5 outcome independent of the chunk schedule; T6 the same stream scanned twice in one process gives the same outcome; T7 input x4 allocates at most x9. A case is one faulted scan or string call; it is non-trivial when its state key is new.",
 		StateRule:   "distinct (format, fault kind, last edit kind, top-level field in which the fault landed, chunk class, outcome {panic, error, clean, clean-nothing}) and (string function, outcome)",
 		Assumptions: []string{"(0,nil) reads are not injected: pars (a dependency) spins on them", "time proportional to the input is decided only as 'no hang within the watchdog'", "FASTA has no end marker: T3 is applied to GenBank streams only"},
 		Real:        []string{"seqio.NewAutoScanner, GenBankParser and all sub-parsers, FastaParser, INSDCTableParser, QualifierParser", "gts.AsLocation/AsLocator/AsModifier/Selector/AsMolecule/AsTopology, seqio.AsDate", "pars"},
